@@ -1,6 +1,7 @@
 //! hv — bounded-exhaustive explorer (engine E1) for the huginn-net properties.
 //! usage: hv run <ID> <quick|thorough> <out.json>
 //!        hv replay <ID> <replay.json>
+mod alloc;
 mod drv;
 mod gen;
 mod props;
@@ -8,6 +9,9 @@ mod refm;
 mod report;
 
 use report::Report;
+
+#[global_allocator]
+static GLOBAL: alloc::Counting = alloc::Counting;
 use serde_json::Value;
 
 pub struct Outcome {
